@@ -493,8 +493,9 @@ class Grammar(object):
     lists nested in it (argument groups included); token / control-sequence arguments and
     empty lists cost nothing."""
 
-    def __init__(self, ctx, cmax=99, calls=None, inert_verbatim=False):
+    def __init__(self, ctx, cmax=99, calls=None, inert_verbatim=False, minimal=False):
         self.inert_verbatim = inert_verbatim
+        self.minimal = minimal      # leaves: text and one symbol only (deep-nesting grammars)
         self.ctx = ctx
         self.sig = SIGS[ctx]
         self.calls = calls      # restrict to these macro/env names (None = all)
@@ -505,6 +506,8 @@ class Grammar(object):
     def leaves(self, math, in_opt, first, prev_t):
         sig = self.sig
         out = [('T', 'a')]
+        if self.minimal:
+            return out + [('Sym', sig['syms'][0])]
         for s in sig['syms']:
             if self.ctx == 'A0' or s not in sig['unknown'] or self.ctx == 'A':
                 out.append(('Sym', s))
